@@ -81,6 +81,12 @@ def reach(edges, v):
     return out
 
 
+class _Split(Exception):
+    def __init__(s, term, vals):
+        s.term = term
+        s.vals = vals
+
+
 def ob_merge(env, N, cap, ge, gp, gpos, he, hp, hpers, left, right, lab='alpha', gpers=None, expect='ok', hash_seed=0x42, gsel=None, hsel=None):
     """ge/he: targets per vertex of g/h; gp/hp: present ids; hpers: persistence per vertex of h (fixed: it
     drives put()); gpers: per vertex of g, None = symbolic; expect: 'ok' (both trees, everything of h
@@ -165,103 +171,123 @@ def ob_merge(env, N, cap, ge, gp, gpos, he, hp, hpers, left, right, lab='alpha',
         if vm.feasible(s1, z3.Not(okb)):
             _report(c, vm.get_model(s1, z3.Not(okb)), ['merge:ok'], call, 'C11')
             continue
-        s2 = s1
-        T1 = c.T(s2); P1 = c.P(s2); E1 = c.E(s2)
-        if not all(z3.is_bv_value(z3.simplify(t)) for t in T1):
-            pass
-        # ---- the mapping right -> left, followed along the labels in the post-state
-        dec1 = {}
+        def _judge(s2):
+            T1 = c.T(s2); P1 = c.P(s2); E1 = c.E(s2)
+            if not all(z3.is_bv_value(z3.simplify(t)) for t in T1):
+                pass
+            # ---- the mapping right -> left, followed along the labels in the post-state
+            dec1 = {}
 
-        def post_label(u, j):
-            if (u, j) not in dec1:
-                dec1[(u, j)] = decode_label(c, s2, w.a_ekey(u, j))
-            return dec1[(u, j)]
+            def post_label(u, j):
+                if (u, j) not in dec1:
+                    dec1[(u, j)] = decode_label(c, s2, w.a_ekey(u, j))
+                return dec1[(u, j)]
 
-        def must(f):
-            return not vm.feasible(s2, z3.Not(f))
-        M = {right: left}
-        cl = []
-        bad = None
-        new_ids = []
-        for r in hreach:
-            u = M[r]
-            for j, r2 in enumerate(he[r]):
-                a = hy.ekey[r][j]
-                found = None
-                for k in range(N):
-                    if not vm.feasible(s2, z3.UGT(E1[u], k)):
-                        continue
-                    if must(z3.And(z3.UGT(E1[u], k), label_is(post_label(u, k), a))):
-                        found = k
+            def must(f):
+                return not vm.feasible(s2, z3.Not(f))
+            M = {right: left}
+            cl = []
+            bad = None
+            new_ids = []
+            for r in hreach:
+                u = M[r]
+                for j, r2 in enumerate(he[r]):
+                    a = hy.ekey[r][j]
+                    found = None
+                    for k in range(N):
+                        if not vm.feasible(s2, z3.UGT(E1[u], k)):
+                            continue
+                        if must(z3.And(z3.UGT(E1[u], k), label_is(post_label(u, k), a))):
+                            found = k
+                            break
+                    if found is None:
+                        bad = "the path %s of the right graph has no counterpart from vertex %d of the left graph" % ((r, j, r2), u)
                         break
-                if found is None:
-                    bad = "the path %s of the right graph has no counterpart from vertex %d of the left graph" % ((r, j, r2), u)
+                    t = w.etgt(s2, u, found)
+                    if not isinstance(t, int):
+                        t = z3.simplify(to_bv(t, 64))
+                        if not z3.is_bv_value(t):
+                            # the target is not decided by the path (the real code did not branch on what decides it):
+                            # split on its feasible values and judge every case
+                            vals = vm.values_of(s2, t, 16, exact=True)
+                            if len(vals) != 1:
+                                raise _Split(t, vals)
+                            t = vals[0]
+                        else:
+                            t = t.as_long()
+                    if r2 in M and M[r2] != t:
+                        bad = "vertex %d of the right graph is mapped twice (%d and %d)" % (r2, M[r2], t)
+                        break
+                    M[r2] = t
+                    # was the edge there before? (the real code forked on exactly this question)
+                    was = z3.Or(*[z3.And(z3.UGT(E0[u], k), y.etgt[u][k] == t, y.ekey[u][k].eq(a)) for k in range(N)]) if u in gp else z3.BoolVal(False)
+                    if u in gp and must(was):
+                        pass
+                    else:
+                        new_ids.append(t)
+                        cl.append(('merge:new-vertex', z3.And(z3.Not(was) if u in gp else z3.BoolVal(True), z3.BoolVal(t < cap and t not in gp))))
+                if bad:
                     break
-                t = w.etgt(s2, u, found)
-                if not isinstance(t, int):
-                    t = z3.simplify(to_bv(t, 64))
-                    if not z3.is_bv_value(t):
-                        raise Inconclusive("merge: symbolic edge target after the merge")
-                    t = t.as_long()
-                if r2 in M and M[r2] != t:
-                    bad = "vertex %d of the right graph is mapped twice (%d and %d)" % (r2, M[r2], t)
-                    break
-                M[r2] = t
-                # was the edge there before? (the real code forked on exactly this question)
-                was = z3.Or(*[z3.And(z3.UGT(E0[u], k), y.etgt[u][k] == t, y.ekey[u][k].eq(a)) for k in range(N)]) if u in gp else z3.BoolVal(False)
-                if u in gp and must(was):
-                    pass
-                else:
-                    new_ids.append(t)
-                    cl.append(('merge:new-vertex', z3.And(z3.Not(was) if u in gp else z3.BoolVal(True), z3.BoolVal(t < cap and t not in gp))))
             if bad:
-                break
-        if bad:
-            _report(c, vm.get_model(s2), ['merge:paths'], call, 'C11', detail=bad)
-            continue
-        img = list(M.values())
-        cl.append(('merge:injective', z3.BoolVal(len(set(img)) == len(img) and len(set(new_ids)) == len(new_ids))))
-        n_new.add(len(new_ids))
-        # ---- data: every mapped vertex carries the bytes of its origin
-        for r in hreach:
-            u = M[r]
-            if hpers[r] != EMPTY:
-                dec = decode_hex(c, s2, w.a_data(u))
-                cl.append(('merge:data%d' % r, z3.And(hex_equals(dec, hy.data[r]), P1[u] == STORED)))
-        # ---- everything g had is still there; only what h demands is added
-        demanded_data = {M[r] for r in hreach if hpers[r] != EMPTY}
-        for u in range(cap):
-            if u in gp:
-                cl.append(('merge:kept-vertex%d' % u, T1[u] != 0))
-                olds = []
-                for k in range(len(ge[u])):
-                    olds.append(z3.Or(*[z3.And(z3.UGT(E1[u], k2), to_bv(w.etgt(s2, u, k2), 64) == ge[u][k], label_is(post_label(u, k2), y.ekey[u][k]))
-                                        for k2 in range(N) if vm.feasible(s2, z3.UGT(E1[u], k2))]))
-                cl.append(('merge:kept-edges%d' % u, z3.And(*olds) if olds else z3.BoolVal(True)))
-                if u not in demanded_data:
+                _report(c, vm.get_model(s2), ['merge:paths'], call, 'C11', detail=bad)
+                return
+            img = list(M.values())
+            cl.append(('merge:injective', z3.BoolVal(len(set(img)) == len(img) and len(set(new_ids)) == len(new_ids))))
+            n_new.add(len(new_ids))
+            # ---- data: every mapped vertex carries the bytes of its origin
+            for r in hreach:
+                u = M[r]
+                if hpers[r] != EMPTY:
                     dec = decode_hex(c, s2, w.a_data(u))
-                    cl.append(('merge:kept-data%d' % u, z3.And(P1[u] == P0[u], z3.Implies(P0[u] != EMPTY, hex_equals(dec, y.data[u])))))
-            else:
-                cl.append(('merge:created%d' % u, (T1[u] != 0) == z3.BoolVal(u in new_ids)))
-                if u in new_ids and u not in demanded_data:
-                    cl.append(('merge:blank%d' % u, P1[u] == EMPTY))
-            if u in gp or u in new_ids:
-                # every edge after the merge is an old one or one h demands
-                dem = [(hy.ekey[r][j], M[r2]) for r in hreach if M[r] == u for j, r2 in enumerate(he[r])]
-                for k2 in range(N):
-                    if not vm.feasible(s2, z3.UGT(E1[u], k2)):
-                        continue
-                    t2 = to_bv(w.etgt(s2, u, k2), 64)
-                    srcs = [z3.And(t2 == ge[u][k], label_is(post_label(u, k2), y.ekey[u][k])) for k in range(len(ge[u]))] if u in gp else []
-                    srcs += [z3.And(t2 == t, label_is(post_label(u, k2), a)) for a, t in dem]
-                    cl.append(('merge:only-demanded%d.%d' % (u, k2), z3.Implies(z3.UGT(E1[u], k2), z3.Or(*srcs) if srcs else z3.BoolVal(False))))
-        # ---- g keeps obeying C01-C03: the representation invariant (counter == recount) holds again
-        for nme, f in inv(w, s2):
-            cl.append(('merge:inv-' + nme, f))
-        # ---- h is unchanged (every cell outside g's own regions and the fresh allocations)
-        fr, nd = c.frame(s2, allowed)
-        cl += [('merge-pure:' + n_, f) for n_, f in fr]
-        c.refute(s2, cl, call, lambda nme: ('C11',))
+                    cl.append(('merge:data%d' % r, z3.And(hex_equals(dec, hy.data[r]), P1[u] == STORED)))
+            # ---- everything g had is still there; only what h demands is added
+            demanded_data = {M[r] for r in hreach if hpers[r] != EMPTY}
+            for u in range(cap):
+                if u in gp:
+                    cl.append(('merge:kept-vertex%d' % u, T1[u] != 0))
+                    olds = []
+                    for k in range(len(ge[u])):
+                        olds.append(z3.Or(*[z3.And(z3.UGT(E1[u], k2), to_bv(w.etgt(s2, u, k2), 64) == ge[u][k], label_is(post_label(u, k2), y.ekey[u][k]))
+                                            for k2 in range(N) if vm.feasible(s2, z3.UGT(E1[u], k2))]))
+                    cl.append(('merge:kept-edges%d' % u, z3.And(*olds) if olds else z3.BoolVal(True)))
+                    if u not in demanded_data:
+                        dec = decode_hex(c, s2, w.a_data(u))
+                        cl.append(('merge:kept-data%d' % u, z3.And(P1[u] == P0[u], z3.Implies(P0[u] != EMPTY, hex_equals(dec, y.data[u])))))
+                else:
+                    cl.append(('merge:created%d' % u, (T1[u] != 0) == z3.BoolVal(u in new_ids)))
+                    if u in new_ids and u not in demanded_data:
+                        cl.append(('merge:blank%d' % u, P1[u] == EMPTY))
+                if u in gp or u in new_ids:
+                    # every edge after the merge is an old one or one h demands
+                    dem = [(hy.ekey[r][j], M[r2]) for r in hreach if M[r] == u for j, r2 in enumerate(he[r])]
+                    for k2 in range(N):
+                        if not vm.feasible(s2, z3.UGT(E1[u], k2)):
+                            continue
+                        t2 = to_bv(w.etgt(s2, u, k2), 64)
+                        srcs = [z3.And(t2 == ge[u][k], label_is(post_label(u, k2), y.ekey[u][k])) for k in range(len(ge[u]))] if u in gp else []
+                        srcs += [z3.And(t2 == t, label_is(post_label(u, k2), a)) for a, t in dem]
+                        cl.append(('merge:only-demanded%d.%d' % (u, k2), z3.Implies(z3.UGT(E1[u], k2), z3.Or(*srcs) if srcs else z3.BoolVal(False))))
+            # ---- g keeps obeying C01-C03: the representation invariant (counter == recount) holds again
+            for nme, f in inv(w, s2):
+                cl.append(('merge:inv-' + nme, f))
+            # ---- h is unchanged (every cell outside g's own regions and the fresh allocations)
+            fr, nd = c.frame(s2, allowed)
+            cl += [('merge-pure:' + n_, f) for n_, f in fr]
+            c.refute(s2, cl, call, lambda nme: ('C11',))
+        work = [s1]
+        rounds = 0
+        while work:
+            s2 = work.pop()
+            rounds += 1
+            if rounds > 40:
+                raise Inconclusive("merge: too many case splits on symbolic edge targets")
+            try:
+                _judge(s2)
+            except _Split as sp:
+                for v in sp.vals:
+                    s3 = s2.fork()
+                    s3.assume(sp.term == v)
+                    work.append(s3)
     env.cover('merge returned', n >= 1)
     if expect == 'ok' and len(hreach) > 1:
         env.cover('a path on which the merge created a vertex', any(x > 0 for x in n_new))
